@@ -304,7 +304,8 @@ def check(run, pid, module, theorems, flags, replay=None, translated=None):
     if translated:
         from . import libcommon
         libcommon.regen_imp(run)
-        run.prove(translated[0], translated[1], strengthening=True)
+        for mod, ths in (translated if isinstance(translated, list) else [translated]):
+            run.prove(mod, ths, strengthening=True)
     run_l1(run, pid, rng, 3000 if thorough else 240)
     run_l2(run, pid, rng, thorough, flags)
     if replay:
